@@ -217,7 +217,7 @@ def unmarshal_method_frame_contract(which=None):
         name, extra = FRM + '_unmarshal_method_frame[%s]' % which.name, dict(
             selector=lambda fn, args: False, check_cases={'method', 'method-with-malformed-arguments'})
     return Contract(FRM + '_unmarshal_method_frame', [('frame_data', payload_instances(which))], cases=[
-        Case('method', when=good, returns=out),
+        Case('method', when=good, returns=out, fresh_result=True),
         Case('method-with-malformed-arguments', when=garbled, post=post_garbled, havoc=havoc, may_raise=(UE,),
              need_cover=not (which not in (None, 'other') and not which.fields)),
         Case('shorter-than-a-method-id', when=lambda c: parsed(c) == 'short', raises=UE),
@@ -299,12 +299,12 @@ def unmarshal_g_contract(which=None):
     cases = []
     for k in base_c.cases:
         if k.name == 'method':
-            cases.append(Case('method-frame', when=good, returns=out))
+            cases.append(Case('method-frame', when=good, returns=out, fresh_result=True))
             old = k.when
             cases.append(Case('method', when=(lambda old: lambda c: conj(old(c), neg(good(c))))(old), post=k.post,
                               havoc=k.havoc, may_raise=k.may_raise))
         elif k.name == 'content-header':
-            cases.append(Case('content-header-frame', when=hgood, returns=hout))
+            cases.append(Case('content-header-frame', when=hgood, returns=hout, fresh_result=True))
             old = k.when
             cases.append(Case('content-header', when=(lambda old: lambda c: conj(old(c), not hgood(c)))(old), post=k.post,
                               havoc=k.havoc, may_raise=k.may_raise))
